@@ -470,10 +470,12 @@ fn number_string(vm: &mut Vm) -> Result<VCell, Error> {
         _ => 10,
     };
     let num = pop_number(vm)?;
+    // Infinities and NaN have no digits in any radix
+    let finite = num.to_f64().map(|it| it.is_finite()).unwrap_or(true);
     let result = match radix {
-        16 => format!("{:x}", num),
-        8 => format!("{:o}", num),
-        2 => format!("{:b}", num),
+        16 if finite => format!("{:x}", num),
+        8 if finite => format!("{:o}", num),
+        2 if finite => format!("{:b}", num),
         _ => format!("{}", num),
     };
 
